@@ -427,7 +427,9 @@ def render_extract(ex, mode=None, canary=None, lenient=False):
                 raise LostAnchor('%s: loop %d not found (have %d)' % (ex.name, k, len(lp)))
             inserts.append((lp[k], lp[k], '\n' + ltext + '\n'))
             info['spliced'].append('loop %d' % k)
-    for where, nth, lit, itext, how in ex.inserts:
+    if lenient == 'nohints' and info['dropped']:
+        pass
+    for where, nth, lit, itext, how in (ex.inserts if lenient != 'nohints' else []):
       try:
         if how == 'lit':
             pos = _find_nth(text, lit, nth, ex.name)
@@ -465,7 +467,7 @@ def render_extract(ex, mode=None, canary=None, lenient=False):
     return '\n'.join(ex.attrs + [out]), info
 
 
-def generate(unit, mode=None, canary=None, lenient=False):
+def generate(unit, mode=None, canary=None, lenient=False, drop_hints_for=()):
     """Render units/<unit>.rs.  Returns dict(text, regions, items, notes, canaries, has_requires)."""
     gen_py = os.path.join(VERIF, 'units', unit + '.py')
     if os.path.exists(gen_py):
@@ -502,13 +504,25 @@ def generate(unit, mode=None, canary=None, lenient=False):
                 regions.append((first, len(out_lines), 'include', val))
             else:
                 ex = val
-                text, info = render_extract(ex, None, canary, lenient)
+                use = lenient
+                qual0 = (ex.impl.split()[-1] + '::' if ex.impl else '') + ex.name
+                if qual0 in drop_hints_for:
+                    use = 'nohints'
+                elif lenient == 'nohints':
+                    try:
+                        render_extract(ex, None, canary, False)
+                        use = False          # this function still fits its hints: keep them
+                    except LostAnchor:
+                        use = 'nohints'
+                text, info = render_extract(ex, None, canary, use)
+                if use == 'nohints':
+                    info['dropped'].append('all proof hints of this function')
                 qual = (ex.impl.split()[-1] + '::' if ex.impl else '') + ex.name
                 emit(text, 'extract', qual)
                 items.append(info)
                 for c in ex.canaries:
                     canaries.append((c[0], qual))
-                if mode == 'twin' and ex.kind == 'fn' and ex.sig is not None and re.search(r'^\s*requires\b', ex.sig[1], flags=re.M):
+                if mode == 'twin' and ex.kind == 'fn' and not ex.stub and ex.sig is not None and re.search(r'^\s*requires\b', ex.sig[1], flags=re.M):
                     ttext, _ = render_extract(ex, 'twin', None)
                     emit(ttext, 'twin', qual + '__vac')
                     twins.append(qual + '__vac')
